@@ -195,6 +195,18 @@ struct Explorer {
                     }
                 }
             }
+            // look-ups are pure: the whole sweep of accessors (by position, by name, present and absent, typed getters, print) made BEFORE a call must not change what the call does
+            if (status == 0 && expand && orc.c11 && h.size() < (size_t)atoi(getenv("VF_LOOKUP_TWIN_DEPTH") ? getenv("VF_LOOKUP_TWIN_DEPTH") : "2")) {
+                for (auto& o : doneOps) {
+                    World w3(wdir); WSnap p3; st.executions++;
+                    if (!replay(w3, h, &p3) || p3.key != fkeys[pi]) break;
+                    { Sink ignore; C11Stats cs; sweep_C11(w3, p3, ignore, cs); guarded([&] { silencedPrint(*w3.c); }); }
+                    WSnap mid = snapWorld(w3);
+                    if (mid.key != p3.key) { size_t b = sink.size(); V(sink, "C11", "look-ups_changed_the_object", "the accessor sweep alone changed the public state"); emitSink(-1, b); break; }
+                    CallInfo c2; Outcome o2 = guarded([&] { ops[o.id].apply(w3, mid, c2); }); WSnap end = snapWorld(w3);
+                    if (o2 != o.oc || end.key != o.post) { size_t b = sink.size(); V(sink, "C11", "earlier_look-ups_change_later_call/" + ops[o.id].cls, "after the accessor sweep, " + ops[o.id].name + " ends in " + outcomeName(o2) + (o2 == o.oc ? " with another object" : std::string(" instead of ") + outcomeName(o.oc))); emitSink(o.id, b); break; }
+                }
+            }
             rec.insert(rec.end(), (unsigned char*)&pi, (unsigned char*)&pi + 4); rec.push_back(status);
             rec.insert(rec.end(), (unsigned char*)&nTrans, (unsigned char*)&nTrans + 2); rec.insert(rec.end(), trs.begin(), trs.end());
             fwrite(rec.data(), 1, rec.size(), fb); fflush(fb); fflush(fv); fflush(fd); flushStats();
